@@ -207,6 +207,49 @@ def scripted_paused_electorate(g):
     g.tags.add("paused-electorate-scenario")
 
 
+def scripted_logout_of_unavailable_admin(g):
+    """an elector of an open proposal is frozen (or frozen and being re-activated), then his logout is requested: he was
+    already counted out once; the open proposal must stay decidable by the electors who are still available"""
+    r = g.r
+    c = r.choice(["c1", "c2", "c4"])
+    x = r.choice(["adm1", "adm2", "adm3"])
+    others = [a for a in ADMINS if a != x]
+
+    def roles():
+        for a in ADMINS:
+            g.ops.append(f"q obj role @{a}")
+
+    g.submit(r.choice(others), f"appchain FreezeAppchain s:{c} s:reason", "appchain-freeze", "appchain", c)
+    p1 = g.props[-1][0]
+    g.submit(others[0], f"role FreezeRole s:@{x} s:reason", "role-freeze", "role", "@" + x)
+    ref = g.props[-1][0]
+    for v in others:
+        roles()
+        g.ops.append(f"q prop {ref}")
+        g.ops.append(f"block bvm {v} gov Vote s:{ref} s:approve s:r")
+    g.ops.append(f"q prop {ref}")
+    roles()
+    g.ops.append(f"q prop {p1}")
+    if r.random() < 0.3:
+        g.submit(others[1], f"role ActivateRole s:@{x} s:reason", "role-activate", "role", "@" + x)
+        roles()
+        g.ops.append(f"q prop {p1}")
+    g.submit(r.choice([others[0], x]), f"role LogoutRole s:@{x} s:reason", "role-logout", "role", "@" + x)
+    roles()
+    g.ops.append(f"q prop {p1}")
+    ballots = ["approve", "approve", "approve"]
+    if r.random() < 0.3:
+        ballots[r.randrange(3)] = "reject"
+    for v, b in zip(["adm0"] + [a for a in others if a != "adm0"], ballots):
+        roles()
+        g.ops.append(f"q prop {p1}")
+        g.ops.append(f"q obj appchain {c}")
+        g.ops.append(f"block bvm {v} gov Vote s:{p1} s:{b} s:r")
+        g.ops.append(f"q prop {p1}")
+        g.ops.append(f"q obj appchain {c}")
+    g.tags.add("logout-of-unavailable-admin-scenario")
+
+
 def scripted_priority(g):
     """concurrent proposals on one object with different priorities: a freeze (priority 2) is proposed, then a logout
     (priority 3) of the same object pauses it; the paused proposal is withdrawn / voted on / left alone; the logout is
@@ -274,6 +317,8 @@ def gen_c15(rng, n, tier):
             scripted_frozen_admin(g)
         elif k0 < 0.47:
             scripted_paused_electorate(g)
+        elif k0 < 0.57:
+            scripted_logout_of_unavailable_admin(g)
         g.propose()
         for _ in range(r.randint(6, 22)):
             k = r.random()
